@@ -24,26 +24,33 @@ func PutGUID(out []byte, g [16]byte) []byte {
 	return append(out, g[3], g[2], g[1], g[0], g[5], g[4], g[7], g[6], g[8], g[9], g[10], g[11], g[12], g[13], g[14], g[15])
 }
 
-// MaxTick bounds the date domain of the harnesses: instants exactly
-// representable both as int64 nanoseconds and as 100ns ticks.
+// MaxTick bounds the date domain of the harnesses: instants whose nanosecond
+// count fits an int64 (|ticks| <= MaxTick).
 const MaxTick = int64(92233720368547758)
 
-func PutDate(out []byte, t time.Time) []byte {
+// Ticks is the wire value of a date: 0 for the zero time, otherwise the
+// nanosecond count divided by 100 (truncated, as the generated encoders do).
+func Ticks(t time.Time) int64 {
 	if t.IsZero() {
-		return PutU64(out, 0)
+		return 0
 	}
-	return PutU64(out, uint64(t.UnixNano()/100))
+	return t.UnixNano() / 100
 }
 
-// NondetDate returns the zero time or an arbitrary instant at 100ns
-// resolution (UTC) with a non-zero tick count.
+func PutDate(out []byte, t time.Time) []byte {
+	return PutU64(out, uint64(Ticks(t)))
+}
+
+// NondetDate returns the zero time or an arbitrary UTC instant with
+// nanosecond precision (not necessarily a whole number of 100ns ticks) whose
+// nanosecond count fits an int64.
 func NondetDate() time.Time {
 	if Choose(0, 1) == 0 {
 		return time.Time{}
 	}
-	t := int64(NondetU64())
-	Assume(And(t != 0, And(t >= -MaxTick, t <= MaxTick)))
-	return time.Unix(0, t*100).UTC()
+	n := int64(NondetU64())
+	Assume(And(n >= -MaxTick*100, n <= MaxTick*100))
+	return time.Unix(0, n).UTC()
 }
 
 func NondetGUID() (g [16]byte) {
@@ -54,13 +61,8 @@ func NondetGUID() (g [16]byte) {
 	return g
 }
 
-// DateEq compares two dates at the wire's resolution.
+// DateEq compares two dates at the wire's resolution (100ns ticks; the zero
+// time and tick 0 coincide).
 func DateEq(a, b time.Time) bool {
-	if a.IsZero() != b.IsZero() {
-		return false
-	}
-	if a.IsZero() {
-		return true
-	}
-	return a.UnixNano() == b.UnixNano()
+	return Ticks(a) == Ticks(b)
 }
